@@ -220,10 +220,10 @@ CMR_ERROR CMRequimodularTest(CMR* cmr, CMR_INTMAT* matrix, bool* pisEquimodular,
     goto cleanup;
   }
 
-  CMR_CALL( CMRtuTest(cmr, transposed_pseudo_inverse, pisEquimodular, NULL, NULL, &params->tu,
-    stats ? &stats->tu : NULL, remainingTime) );
+  result = CMRtuTest(cmr, transposed_pseudo_inverse, pisEquimodular, NULL, NULL, &params->tu,
+    stats ? &stats->tu : NULL, remainingTime);
 
-  if (pgcdDet)
+  if (result == CMR_OKAY && pgcdDet)
     *pgcdDet = (*pisEquimodular) ? gcdDet : 0;
 
   CMRchrmatFree(cmr, &transposed_pseudo_inverse);
